@@ -1,0 +1,17 @@
+//go:build verif
+
+package commit
+
+// VerifHeader mirrors a chunk header of a buffer.
+type VerifHeader struct {
+	Chunk, Start, Value uint32
+}
+
+// VerifState exposes the raw state of the buffer (build tag "verif" only).
+func (b *Buffer) VerifState() (last int32, chunk uint32, bytes []byte, headers []VerifHeader) {
+	bytes = append([]byte(nil), b.buffer...)
+	for _, h := range b.chunks {
+		headers = append(headers, VerifHeader{uint32(h.Chunk), h.Start, h.Value})
+	}
+	return b.last, uint32(b.chunk), bytes, headers
+}
